@@ -339,6 +339,10 @@ Inductive outcome :=
 | RErr (e : herr)                (* exception leaves feed_data *)
 | RAsk (connect : bool) (target : bytes).
 
+(* CPython refuses int(<more than 4300 digits>) (sys.get_int_max_str_digits() default); aiohttp maps
+   that ValueError to InvalidHeader *)
+Definition int_max_str_digits : N := 4300.
+
 (* what feed_data does once the blank line has been read *)
 Definition start_message (lim : limits) (o : oracle) (s : pst) (ls : list bytes)
   : presult (pst * (acc -> acc)) :=
@@ -352,7 +356,8 @@ Definition start_message (lim : limits) (o : oracle) (s : pst) (ls : list bytes)
     let lenr :=
       match get_header h_content_length hs with
       | None => POk None
-      | Some v => if nonempty v && forallb dec_digit v then POk (Some (parse_dec v)) else PErr EInvalidHeader
+      | Some v => if nonempty v && forallb dec_digit v && (lenN v <=? int_max_str_digits)
+                  then POk (Some (parse_dec v)) else PErr EInvalidHeader
       end in
     match lenr with
     | PErr e => PErr e
